@@ -61,6 +61,12 @@ def scenarios():
     add("become-refusals", "C Cu C B.2.2.- R.0.2.0.0 A.0.3.s/-/-/-/- S.1.c.u0.6.20.2.0.0.0.0 B.1.3.- B.0.4.! B.0.5.s/-/-/-/-,c/-/-/6/-,! B.0.6.!,-/-/-/-/- "
                            "B.0.7.-.1.1 B.0.8.-.4294967295.1 B.0.9.-.0.0 B.0.10.!.1.0 S.2.s.-.6.20.3.0.0.0.0 S.0.r.u1.0.0.11.2.0.0.0 G.0.12 B.0.13.-/-/-/-/- G.1.4")
     add("unprivileged-ordinary", "C Cu B.0.2.- S.1.s.-.6.20.2.0.0.0.0 R.1.3.0.0 B.1.4.- D.1")
+    # message types the specification does not define: shown to monitors like any refused message, through every rule list
+    add("undefined-type", "C C C C C B.2.2.-/-/-/6/- B.3.2.-/-/-/-/20,c/-/-/6/- B.4.2.- S.0.t5.u1.6.20.2.0.0.0.0 S.0.t5.u1.7.20.3.0.0.0.0 "
+                          "S.0.t9.n4.6.21.4.0.0.0.0 S.0.t9.n3.6.20.5.0.0.0.1 S.0.t255.d.6.20.6.0.0.0.0 S.0.t5.-.6.20.7.0.0.0.0 S.0.t5.-.2.20.8.0.0.0.0 "
+                          "S.0.t5.u1.0.0.9.0.0.0.0 S.0.c.u1.6.20.10.0.0.0.0 S.1.t5.u0.6.20.2.10.0.0.0 D.1 S.3.t5.u0.6.20.3.0.0.0.0")
+    add("index-paths", "C C C C C C B.2.2.-/-/-/7/- B.3.2.s/-/-/-/- B.4.2.s/-/-/7/- B.5.2.-/-/-/-/21 S.0.s.-.7.21.2.0.0.0.0 S.0.c.u1.7.21.3.0.0.0.0 "
+                       "S.0.s.-.6.20.4.0.0.0.0 S.0.t5.u1.7.21.5.0.0.0.0 S.1.r.u0.0.0.2.3.0.0.0")
     add("no-monitor", "C C A.1.2.s/-/-/-/- S.0.s.-.6.20.2.0.0.0.0 R.0.3.0.0 D.0")
     add("monitor-disconnects", "C C C B.1.2.- B.2.2.- D.1 S.0.s.-.6.20.2.0.0.0.0 D.2 S.0.s.-.6.20.3.0.0.0.0")
     return S
@@ -78,6 +84,15 @@ def rand_name(rnd, st, allow_driver=True):
 def rand_filter(rnd, st, monitor):
     if monitor and rnd.random() < 0.15:
         return "-/-/-/-/-"
+    if monitor and rnd.random() < 0.4:
+        # one key only, or type plus one: every rule list of the matchmaker's index gets used by monitors
+        k = rnd.choice(["i", "i", "i", "m", "t", "s", "d", "ti", "ti", "tm"])
+        t = rnd.choice("scre") if "t" in k else "-"
+        i = str(rnd.choice([6, 6, 7, 1, 4, 5])) if "i" in k else "-"
+        m = str(rnd.choice([20, 20, 21, 7, 8])) if "m" in k else "-"
+        sd = rand_name(rnd, st) if "s" in k else "-"
+        d = rand_name(rnd, st) if "d" in k else "-"
+        return "/".join([t, sd, d, i, m])
     t = rnd.choice(["-", "-", "-", "s", "s", "c", "r", "e"]) if monitor else rnd.choice(["s", "s", "-", "c"])
     sd = rand_name(rnd, st) if rnd.random() < (0.45 if monitor else 0.3) else "-"
     d = rand_name(rnd, st) if rnd.random() < (0.4 if monitor else 0.08) else "-"
@@ -141,7 +156,11 @@ def gen_history(rnd, n_events):
         r = rnd.random()
         iface = rnd.choice(IFACES)
         member = rnd.choice(MEMBERS) if iface == 2 else rnd.choice([20, 20, 21])
-        if r < 0.3:          # broadcast signal
+        if r < 0.05:         # a message whose type byte is none of the four defined ones: captured, refused, never delivered
+            ty = rnd.choice(["t5", "t5", "t9", "t255"])
+            ev.append("S.%d.%s.%s.%d.%d.%d.%d.0.0.%d" % (c, ty, dest_for_call(), rnd.choice([6, 6, 7, 0, 2, 5]), rnd.choice([20, 21, 0]), ser(c),
+                                                         rnd.choice([0, 0, 0, 3]), rnd.choice([0, 0, 1])))
+        elif r < 0.3:        # broadcast signal
             ev.append("S.%d.s.-.%d.%d.%d.0.0.0.0" % (c, iface, member, ser(c)))
         elif r < 0.38:       # unicast signal
             ev.append("S.%d.s.%s.%d.%d.%d.0.0.0.0" % (c, dest_for_call(), iface if iface != 2 else 6, member, ser(c)))
